@@ -510,6 +510,8 @@ pub fn run(env: &Env, rec: &Recorder) -> (String, Vec<&'static str>)
         rec.harness_error("the log rlib (feature kv) has not been built: run ./build.sh".into());
     }
     pbt_opts(env, rec, "programs", env.cases(600, 6000), 120, &strategy, &check);
+    rec.extra("programs", json!(rec.cases()));
+    rec.extra("disagreements_checked", json!(rec.violation_count()));
     (
         "programs of 12-30 log statements (5 levels, bare or log::-qualified, optional target, 0-3 key-values incl. shorthand captures and ?/%/debug/display modifiers, format strings with positional/inline/named/width arguments, escaped quotes and braces, multi-line layouts with comments between arguments, breadlog:ignore / no-kvp directives, some statements already referenced), both styles. Breadlog edits the program; ONE crate containing the original and the edited body is compiled with rustc against log 0.4.22 (feature kv) and executed with a capturing logger. Oracle: edited program compiles; same number of records; unedited statements log identically; an edited statement logs the same level/target/key-values and message with exactly `[ref: N] ` prepended (and the documented regex extracts N), or the same message with (ref, N) prepended to the key-values. Non-trivial = distinct edited statement with a target, key-values or >= 2 format arguments".to_string(),
         vec![":err/:sval/:serde capture modifiers are excluded: their crates (value-bag-serde1, sval) are not available offline, so such programs cannot be compiled here", "a generated program whose ORIGINAL does not compile is a generator defect: counted in class_histogram, never reported as a violation"],
